@@ -320,11 +320,18 @@ where
             };
         }
 
+        // Raft §5.3: commitIndex = min(leaderCommit, index of last new entry). Only the prefix
+        // this request verified (prev_log_index + its entries) is known to match the leader;
+        // anything the local log holds beyond it may be a stale tail from a deposed leader and
+        // must not be marked committed.
+        let last_verified_index = request.prev_log_index + request.entries.len() as u64;
         if let Some(new_commit_index) = Self::if_update_commit_index_as_follower(
             state_snapshot.commit_index,
-            raft_log.last_entry_id(),
+            last_verified_index.min(raft_log.last_entry_id()),
             request.leader_commit_index,
-        ) {
+        )
+        .filter(|new_commit| *new_commit > state_snapshot.commit_index)
+        {
             debug!("new commit index received: {:?}", new_commit_index);
             commit_index_update = Some(new_commit_index);
         }
